@@ -334,3 +334,33 @@ def stats_breakdown_counts_pending_sessions(trace, viol):
     partial = any((o.get("op") == "stage") or (_is_git(o, "add", "--")) or (_is_git(o, "commit", "--")) for o in ops[:st + 1])
     sessions = {o.get("who") for o in ops[:st + 1] if o.get("op") == "edit" and o.get("who") != "human"}
     return partial and len(sessions) >= 2
+
+
+@predicate("ws_change_next_to_deletion")
+def ws_change_next_to_deletion(trace, viol):
+    """the reported line exists in the trace in two whitespace variants (same text up to blanks) and
+    the edit that introduced the later variant also removed lines from that file: someone changed
+    only the line's whitespace in the same edit that deleted neighbouring lines"""
+    if viol.get("class") not in ("ai_line_reported_human", "wrong_session"):
+        return False
+    import re
+    text = (viol.get("detail") or {}).get("text") or ""
+    key = re.sub(r"\s+", "", text)
+    if not key:
+        return False
+    content = dict((trace.get("init") or {}).get("files") or {})
+    seen = {}
+    for o in _ops(trace):
+        if o.get("op") != "edit":
+            continue
+        for path, c in (o.get("files") or {}).items():
+            old = content.get(path) or ""
+            new = c or ""
+            for ln in new.splitlines():
+                if re.sub(r"\s+", "", ln) == key:
+                    prev = seen.get(path)
+                    if prev is not None and prev != ln and len(new.splitlines()) < len(old.splitlines()):
+                        return True
+                    seen[path] = ln
+            content[path] = c
+    return False
